@@ -229,6 +229,35 @@ func c15Float(bits uint64) core.Result {
 			return core.Violation("numeric-string", fmt.Sprintf("CoerceNumber(%q) = %v, want %v", sp, n, f))
 		}
 	}
+	// the decimal that spells f (up to 17 significant digits): as a value, as a pointer and through its text
+	if math.Abs(f) < 1e300 && (f == 0 || math.Abs(f) > 1e-300) {
+		d := decimal.NewFromFloat(f)
+		dn, pan := coerceAll(d)
+		if pan != "" {
+			return core.Violation("panic", fmt.Sprintf("coercing decimal %s panicked: %s", d, pan))
+		}
+		viaText := stick.CoerceNumber(dn.s)
+		viaPtr := stick.CoerceNumber(&d)
+		if dn.n != viaText || dn.n != viaPtr || dn.n != f {
+			return core.Violation("decimal", fmt.Sprintf("decimal %s (from float64 %v): CoerceNumber = %v, through its text %q = %v, through a pointer = %v", d, f, dn.n, dn.s, viaText, viaPtr))
+		}
+		if msg := safeLaw(d, dn); msg != "" {
+			return core.Violation("safe-wrapper", msg)
+		}
+	}
+	// long spellings of the same number (zero padding on either side, explicit sign, exponent forms)
+	if f == math.Trunc(f) && math.Abs(f) < 1e15 {
+		plain := strconv.FormatFloat(math.Abs(f), 'f', -1, 64)
+		sign := ""
+		if f < 0 {
+			sign = "-"
+		}
+		for _, sp := range []string{sign + strings.Repeat("0", 40) + plain, sign + plain + "." + strings.Repeat("0", 40), sign + plain + strings.Repeat("0", 30) + "e-30", sign + "0." + strings.Repeat("0", 29) + plain + "e" + strconv.Itoa(29+len(plain))} {
+			if n := stick.CoerceNumber(sp); n != f {
+				return core.Violation("numeric-string", fmt.Sprintf("CoerceNumber(%q) = %v, want %v", sp, n, f))
+			}
+		}
+	}
 	// float32 carrier of the same value
 	if f32 := float32(f); float64(f32) == f {
 		g, pan := coerceAll(f32)
